@@ -349,6 +349,9 @@ func probeConfig(probe, name string) (string, error) {
 func regFile(core, fed []string) string {
 	var sb strings.Builder
 	sb.WriteString("// Code generated by /verif/cmd/check; DO NOT EDIT.\npackage probereg\n\nimport (\n\t\"verifsim/uni\"\n")
+	if len(fed) > 0 {
+		sb.WriteString("\t\"context\"\n\t\"github.com/99designs/gqlgen/graphql\"\n")
+	}
 	for _, v := range append(append([]string{}, core...), fed...) {
 		fmt.Fprintf(&sb, "\t%s \"verifsim/probe/%s\"\n", v, v)
 	}
@@ -363,7 +366,7 @@ func regFile(core, fed []string) string {
 	if len(fed) > 0 {
 		sb.WriteString("\tFed = []uni.FedVariant{\n")
 		for _, v := range fed {
-			fmt.Fprintf(&sb, "\t\t{Name: %q, NewStub: %s.NewStub, Build: %s.Build, Models: %s.Models},\n", v, v, v, v)
+			fmt.Fprintf(&sb, "\t\t{Name: %q, NewStub: %s.NewStub, Build: func(stub any, hook func(ctx context.Context, typ, key string) error) graphql.ExecutableSchema {\n\t\t\treturn %s.Build(stub, hook)\n\t\t}},\n", v, v, v)
 		}
 		sb.WriteString("\t}\n")
 	}
